@@ -141,6 +141,14 @@ claim("C20", "HIR argument provenance + MIR success-edge dominance of the dispat
       "handler(parsed DID), Into/HandlerError) and apply calls the stored function; the Command trait is sealed; did:jwk expansion uses exactly did.jwk() with fragment \"0\".",
       "actual interleavings of the polled futures; handler determinism.", "DESIGN.md §7 C20")
 
+claim("C09", "HIR exit inventory with effect-before-exit and compensation-in-branch analysis (linear resource / compensation rule) + argument provenance of the undo calls + decision table of the deletion results + ignored-result inventory",
+      "Decides for every fault pattern (every error exit on every path) of both macro instantiations: in generate_method each error exit after key generation goes through try_undo_key_generation(storage, "
+      "&key_id, _), the one after a successful insert_method first removes the method, the only uncompensated `?` exits are the two reviewed infallible ones, effects are ordered generate → insert_method → "
+      "insert_key_id; try_undo_key_generation deletes exactly the key, consults no other storage call, and returns UndoOperationFailed iff the deletion failed; in purge_method each of the six error exits after "
+      "the removal re-inserts (method, scope) exactly as returned by remove_method_and_scope or reports UndoOperationFailed, the four-row deletion table is complete and row (Err, Ok) re-inserts the key id "
+      "before the method; only the reviewed results are ignored; the trait is sealed. remove_method_and_scope drops removed references, so a failing purge loses them: known findings D10a/b (probe in findings/).",
+      "the fault × occurrence enumeration as an experiment; atomicity of concrete stores.", "DESIGN.md §7 C09")
+
 for _p, _r in {
     "C01": "rules not yet implemented in this revision (planned, DESIGN §7)", "C02": "rules not yet implemented in this revision",
     "C03": "rules not yet implemented in this revision", "C04": "rules not yet implemented in this revision",
